@@ -117,6 +117,71 @@ def gen_cases(ctx, n_state, n_public):
     return items
 
 
+def _rank(t):
+    k = sa.kind(t)
+    if k == "f":
+        return 1
+    rs = [_rank(c) for c in t[k]]
+    if None in rs:
+        return None
+    if k == "o":
+        return sum(rs)
+    return rs[0] if all(r == rs[0] for r in rs) else None
+
+
+def _has_inner(t) -> bool:
+    k = sa.kind(t)
+    return k != "f" and (k == "i" and len(t[k]) > 1 or any(_has_inner(c) for c in t[k]))
+
+
+def near_miss_cases():
+    """Every tree over 2-4 fields that contains an inner product, with (i) a valid length assignment (equal shapes),
+    (ii) every single-field perturbation of it (one leading or trailing dimension of one operand off by one) and
+    (iii) every swap of two fields' lengths (same element count, different shape).  These are the inputs on which the
+    `shape_L != shape_R` test — and therefore the shapes recorded for compound operands — decides the outcome."""
+    out, seen = [], set()
+    for nf in (2, 3, 4):
+        fs = list(range(nf))
+        for t in sa.all_trees(fs):
+            if not _has_inner(t):
+                continue
+            if _rank(t) is not None:
+                base = {}
+                for ai, ax in enumerate(sa.oracle_axes(t)):
+                    for f in ax:
+                        base[f] = [2, 3, 1, 2][ai % 4]
+            else:
+                base = {f: 2 for f in fs}
+            variants = [("valid", base)]
+            for f in fs:
+                variants.append(("perturb", {**base, f: base[f] % 3 + 1}))
+            for f in fs:
+                for g in fs:
+                    if f < g and base[f] != base[g]:
+                        variants.append(("swap", {**base, f: base[g], g: base[f]}))
+            for tag, lens in variants:
+                c = sa.flat_case_from(t, lens)
+                key = json.dumps(c)
+                if key not in seen:
+                    seen.add(key)
+                    out.append((tag, c))
+    return out
+
+
+# inner product of two outer products: equal shapes / same count, other shape / equal leading, unequal trailing / unequal leading
+IOO = sa.I(sa.O(sa.F(0), sa.F(1)), sa.O(sa.F(2), sa.F(3)))
+IOO_FAMILY = [
+    sa.flat_case_from(IOO, dict(zip(range(4), lens)))
+    for lens in [(2, 3, 2, 3), (1, 3, 1, 3), (2, 3, 3, 2), (1, 2, 2, 1), (2, 2, 2, 3), (1, 3, 1, 2), (2, 2, 3, 2), (1, 2, 2, 2)]
+] + [
+    sa.flat_case_from(sa.I(sa.O(sa.F(0), sa.F(1)), sa.F(2)), {0: 1, 1: 3, 2: 3}),  # 1x3 against 3
+    sa.flat_case_from(sa.I(sa.O(sa.F(0), sa.F(1)), sa.F(2)), {0: 3, 1: 1, 2: 3}),  # 3x1 against 3
+    sa.flat_case_from(sa.O(sa.F(3), sa.I(sa.O(sa.F(0), sa.F(1)), sa.O(sa.F(2), sa.F(4)))), {0: 2, 1: 2, 2: 2, 3: 1, 4: 3}),  # 5 fields
+    sa.flat_case_from(sa.I(sa.O(sa.I(sa.F(0), sa.F(1)), sa.F(2)), sa.O(sa.F(3), sa.F(4))), {0: 2, 1: 2, 2: 2, 3: 2, 4: 3}),  # outer of an inner pair
+    sa.flat_case_from(sa.I(sa.O(sa.I(sa.F(0), sa.F(1)), sa.F(2)), sa.O(sa.F(3), sa.F(4))), {0: 2, 1: 2, 2: 3, 3: 2, 4: 3}),
+]
+
+
 def exhaustive_small(ctx):
     """every tree shape over <= 3 fields x every length assignment 0..2 (State level)"""
     import itertools
@@ -143,7 +208,18 @@ def correspondence(ctx):
     )
     items = [(D1_WITNESS, "state"), (D33_REGRESSION, "state"), (D33_REGRESSION, "public")]
     items += [(c, lvl) for c in sa.corpus("c01.jsonl") for lvl in ("state", "public")]
-    items += gen_cases(ctx, ctx.pick(1000, 12000), ctx.pick(60, 900))
+    # systematic: inner products whose operands are compound, and every near-miss of every inner product (<= 4 fields)
+    for c in IOO_FAMILY:
+        items += [(c, "state"), (c, "public")]
+    nm = near_miss_cases()
+    for n, (tag, c) in enumerate(nm):
+        ctx.count(f"near-miss:{tag}")
+        items.append((c, "state"))
+        o = sa.oracle_case(c)
+        cheap = o.get("rejected") or len(o["rows"]) <= 8
+        if cheap and (not ctx.quick or (n + ctx.seed) % 24 == 0):
+            items.append((c, "public"))
+    items += gen_cases(ctx, ctx.pick(500, 12000), ctx.pick(45, 900))
     if not ctx.quick:
         items += exhaustive_small(ctx)
     judge_recs(ctx, sa.run_batch(ctx, items))
